@@ -471,6 +471,7 @@ class FiltersSet:
             elif isinstance(
                 node,
                 (
+                    commands.AddressCommand,
                     commands.HeaderCommand,
                     commands.SizeCommand,
                     commands.ExistsCommand,
@@ -481,7 +482,7 @@ class FiltersSet:
             ):
                 args = node.args_as_tuple()
                 if negate:
-                    if node.name in ["header", "envelope"]:
+                    if node.name in ["header", "envelope", "address"]:
                         nargs = (args[0], ":not{}".format(args[1][1:]))
                         if len(args) > 3:
                             nargs += args[2:]
